@@ -270,7 +270,8 @@ fn judge(case: &Arc<Case>, out: &RunOutput, oracle: &mut AloneOracle, rt: &mut R
         }
         let op = op_of(case, *id);
         let alone = oracle.alone(op, rt);
-        if !res.same(&alone) {
+        // the engine is compared with itself here, so the text of an Err is part of the result
+        if !res.same_exact(&alone) {
             return Some((
                 "differs_from_alone".into(),
                 format!(
